@@ -61,7 +61,7 @@ def _has_quant(t):
 class Engine(NumpyTheory, Evaluator):
     BUILTINS = {'len', 'min', 'max', 'abs', 'int', 'range', 'list', 'tuple', 'isinstance', 'slice', 'all', 'any',
                 'implies', 'old', 'enumerate', 'zip', 'ceil', 'floor', 'float', 'bool', 'str', 'dict', 'getattr',
-                'round', 'iff', 'sorted', 'ite', 'map', 'super', 'fresh_obj', 'same_fields_except', 'is_fresh', 'psum', 'ops_fold', 'op_row', 'nblocks', 'flat', 'elems', 'is_list', 'is_none', 'smul', 'smul_def', 'sq'}
+                'round', 'iff', 'sorted', 'ite', 'map', 'super', 'fresh_obj', 'same_fields_except', 'is_fresh', 'psum', 'ops_fold', 'op_row', 'nblocks', 'flat', 'elems', 'is_list', 'is_none', 'smul', 'smul_def', 'sq', 'rpsum', 'same_rows', 'same_lengths'}
 
     def __init__(self, spec_module_path=None):
         self.obs = []
@@ -151,6 +151,12 @@ class Engine(NumpyTheory, Evaluator):
             lv, n = st.heap.fresh_list(t[1], base)
             st.assume(n >= 0)
             return VList(lv.ref, nd=(k == 'arr'))
+        if k == 'rag':
+            rv, cnt, lens = st.heap.fresh_rag(t[1], base)
+            q = z3.Int(fresh_name('q'))
+            st.assume(cnt >= 0)
+            st.assume(z3.ForAll([q], z3.Implies(z3.And(q >= 0, q < cnt), lens[q] >= 0)))
+            return rv
         if k == 'blocks':
             flat, n = st.heap.fresh_list(t[1], base + '.flat')
             st.assume(n >= 0)
@@ -297,6 +303,9 @@ class Engine(NumpyTheory, Evaluator):
                 if r is None:
                     raise Unsupported('ndarray dunder on non-row data')
                 return r
+            if f.kind == 'ragmethod':
+                self.rag_append(f.self_val, self.as_array(args[0], st) if isinstance(args[0], VList) else args[0], st)
+                return VNone()
             if f.kind == 'blocksmethod':
                 blk = st.heap.objs[f.self_val.ref]
                 rows = args[0]
@@ -419,6 +428,8 @@ class Engine(NumpyTheory, Evaluator):
             return isinstance(v, VTuple) and len(v.items) == len(t[1]) and all(self.value_matches(x, y, st) for x, y in zip(v.items, t[1]))
         if k == 'slice':
             return isinstance(v, VSlice) and all(self.value_matches(x, y, st) for x, y in zip((v.start, v.stop, v.step), t[1:]))
+        if k == 'rag':
+            return isinstance(v, VRag)
         if k == 'obj':
             return isinstance(v, VObj) and (t[1] is None or self.is_subclass(v.cls, t[1]))
         if k == 'rec':
@@ -461,6 +472,8 @@ class Engine(NumpyTheory, Evaluator):
             if isinstance(v, VRange):
                 if const_int(v.step) == 1:
                     return VInt(zmax(v.stop - v.start, I(0)))
+            if isinstance(v, VRag):
+                return VInt(st.heap.rags[v.ref].count)
             if isinstance(v, VElem):
                 f = z3.Function('elem_len', Elem, z3.IntSort())
                 st.assume(f(v.t) >= 0)
@@ -609,6 +622,18 @@ class Engine(NumpyTheory, Evaluator):
                 t._ax_key = key
                 st.pc.append(t)
             return VElem(F(A, B, n, row))
+        if name == 'rpsum':
+            # rpsum(list_of_arrays, p): number of elements in the first p arrays
+            rc = st.heap.rags[args[0].ref]
+            return VInt(self.rag_psum(rc, st)(as_int(args[1])))
+        if name == 'same_lengths':
+            ra, rb = st.heap.rags[args[0].ref], st.heap.rags[args[1].ref]
+            return VBool(z3.And(ra.count == rb.count, ra.lens == rb.lens))
+        if name == 'same_rows':
+            # same_rows(a, b): two lists of arrays with equal count, equal lengths and equal content
+            ra, rb = st.heap.rags[args[0].ref], st.heap.rags[args[1].ref]
+            q = z3.Int(fresh_name('q'))
+            return VBool(z3.And(ra.count == rb.count, ra.lens == rb.lens, z3.ForAll([q], z3.Implies(z3.And(q >= 0, q < ra.count), ra.data[q] == rb.data[q]))))
         if name == 'sq':
             SQ = z3.Function('sq', z3.RealSort(), z3.RealSort())
             if not any(getattr(t_, '_ax_key', None) == 'sq' for t_ in st.pc):
@@ -925,6 +950,31 @@ class Engine(NumpyTheory, Evaluator):
         finally:
             st.env, st.ghost, st.old = saved_env, saved_ghost, old
 
+    def rag_row(self, rag, k, st):
+        """the k-th array of a list of arrays, as an array value that writes back into the list when mutated in place"""
+        rc = st.heap.rags[rag.ref]
+        row = st.heap.alloc_list(rc.etype, rc.lens[k], [rc.data[k]])
+        v = VList(row.ref, nd=True)
+        v.owner = (rag.ref, k)
+        return v
+
+    def writeback(self, v, st):
+        own = getattr(v, 'owner', None)
+        if own is None:
+            return
+        rref, k = own
+        rc = st.heap.rags[rref]
+        cell = st.heap.lists[v.ref]
+        same_len = cell.length.eq(rc.lens[k]) or st.entails(cell.length == rc.lens[k])
+        st.heap.rags[rref] = RagCell(rc.etype, rc.count, rc.lens if same_len else z3.Store(rc.lens, k, cell.length), z3.Store(rc.data, k, cell.leaves[0]))
+
+    def rag_append(self, rag, row, st):
+        rc = st.heap.rags[rag.ref]
+        cell = st.heap.lists[row.ref]
+        if cell.etype != rc.etype:
+            raise Unsupported('appending an array of %r to a list of %r arrays' % (cell.etype, rc.etype))
+        st.heap.rags[rag.ref] = RagCell(rc.etype, rc.count + 1, z3.Store(rc.lens, rc.count, cell.length), z3.Store(rc.data, rc.count, cell.leaves[0]))
+
     def havoc_target(self, m, st):
         parts = m.split('.')
         v = st.env[parts[0]]
@@ -1079,6 +1129,10 @@ class Engine(NumpyTheory, Evaluator):
         if isinstance(tgt, ast.Name):
             if isinstance(val, VList) and st.heap.lists[val.ref].etype is None and tgt.id in self.cur.locals:
                 t = parse_type(self.cur.locals[tgt.id])
+                if t[0] == 'rag':
+                    rv, cnt, lens = st.heap.fresh_rag(t[1], tgt.id)
+                    st.assume(cnt == 0)
+                    val = rv
                 if t[0] == 'blocks':
                     flat = st.heap.alloc_list(t[1], z3.IntVal(0), [z3.K(z3.IntSort(), self.default_of(s)) for s in leaf_sorts(t[1])])
                     o = st.heap.alloc_obj('<blocks>', {'flat': flat, 'count': VInt(0)})
@@ -1148,12 +1202,18 @@ class Engine(NumpyTheory, Evaluator):
     def st_AugAssign(self, stmt, st):
         cur = self.ev(stmt.target, st)
         rhs = self.ev(stmt.value, st)
-        if isinstance(cur, VList) and isinstance(stmt.op, ast.Add):
+        if isinstance(cur, VList) and not cur.nd and isinstance(stmt.op, ast.Add):
             if not isinstance(rhs, VList):
                 raise Unsupported('list += non-list')
             self.list_concat(cur, rhs, st, into=cur)
             return [st]
         val = self.binop(stmt.op, cur, rhs, st, stmt)
+        if isinstance(cur, VList) and cur.nd and isinstance(val, VList):
+            # numpy: x += v modifies the array object in place (every alias sees it), it does not rebind the name
+            self.used('in-place augmented assignment on an array (same_kind casting assumed possible: A-NOOVF)')
+            st.heap.lists[cur.ref] = st.heap.lists[val.ref]
+            self.writeback(cur, st)
+            return [st]
         self.assign(stmt.target, val, st)
         return [st]
 
@@ -1243,6 +1303,15 @@ class Engine(NumpyTheory, Evaluator):
     def havoc_for_loop(self, st, body, lc, extra_names=()):
         names, mutated = self.assigned_names(body)
         names |= set(extra_names)
+        for rg in getattr(self, '_loop_rags', []):
+            tgt_mut = any(isinstance(n_, (ast.AugAssign, ast.Assign)) for b_ in body for n_ in ast.walk(b_))
+            if tgt_mut:
+                rc = st.heap.rags[rg.ref]
+                tmp, cnt, lens = st.heap.fresh_rag(rc.etype, 'rag')
+                q = z3.Int(fresh_name('q'))
+                st.assume(cnt == rc.count)
+                st.assume(z3.ForAll([q], z3.Implies(z3.And(q >= 0, q < cnt), lens[q] >= 0)))
+                st.heap.rags[rg.ref] = st.heap.rags.pop(tmp.ref)
         # ghost state may be updated by any yield / callback inside the body: havoc all of it
         for g, cur in list(st.ghost.items()):
             st.ghost[g] = self.fresh_value(infer_etype(cur), 'ghost_' + g, st)
@@ -1285,6 +1354,13 @@ class Engine(NumpyTheory, Evaluator):
                         st.heap.objs[obj.ref][a] = self.fresh_value(infer_etype(cur), a, st)
             elif m not in names:
                 cur = st.env.get(m)
+                if isinstance(cur, VRag):
+                    rc = st.heap.rags[cur.ref]
+                    tmp, cnt, lens = st.heap.fresh_rag(rc.etype, m)
+                    q = z3.Int(fresh_name('q'))
+                    st.assume(cnt >= 0)
+                    st.assume(z3.ForAll([q], z3.Implies(z3.And(q >= 0, q < cnt), lens[q] >= 0)))
+                    st.heap.rags[cur.ref] = st.heap.rags.pop(tmp.ref)
                 if isinstance(cur, VBlocks):
                     blk = st.heap.objs[cur.ref]
                     cell = st.heap.lists[blk['flat'].ref]
@@ -1428,11 +1504,12 @@ class Engine(NumpyTheory, Evaluator):
         for s in seqs:
             if isinstance(s, VTuple):
                 raise Unsupported('for over a tuple')
+        self._loop_rags = [s for s in seqs if isinstance(s, VRag)]
         hidden = idx
         st.env[hidden] = VInt(0)
         if lc.get('seq'):
             st.env[lc['seq']] = seqs[0]
-        lens = [st.heap.lists[s.ref].length for s in seqs]
+        lens = [st.heap.rags[s.ref].count if isinstance(s, VRag) else st.heap.lists[s.ref].length for s in seqs]
         n = lens[0]
         for l in lens[1:]:
             n = zmin(n, l)
@@ -1444,6 +1521,9 @@ class Engine(NumpyTheory, Evaluator):
             k = as_int(h.env[hidden])
             elems = []
             for sq in seqs:
+                if isinstance(sq, VRag):
+                    elems.append(self.rag_row(sq, k, h))
+                    continue
                 cell = h.heap.lists[sq.ref]
                 elems.append(build(cell.etype, iter([a[k] for a in cell.leaves])))
             if targets_kind == 'enumerate':
@@ -1678,7 +1758,17 @@ class Engine(NumpyTheory, Evaluator):
                     if fname in mod or fname not in oldf or fname not in f.heap.objs[so.ref]:
                         continue
                     a, b = f.heap.objs[so.ref][fname], oldf[fname]
-                    if isinstance(a, (VList, VObj)) or isinstance(b, (VList, VObj)):
+                    if isinstance(a, VRag) or isinstance(b, VRag):
+                        if isinstance(a, VRag) and isinstance(b, VRag) and a.ref == b.ref:
+                            ra, rb = f.heap.rags[a.ref], f.old['heap'].rags[b.ref]
+                            if ra is rb:
+                                t = z3.BoolVal(True)
+                            else:
+                                q = z3.Int(fresh_name('q'))
+                                t = z3.And(ra.count == rb.count, z3.ForAll([q], z3.Implies(z3.And(q >= 0, q < ra.count), z3.And(ra.lens[q] == rb.lens[q], ra.data[q] == rb.data[q]))))
+                        else:
+                            t = z3.BoolVal(False)
+                    elif isinstance(a, (VList, VObj)) or isinstance(b, (VList, VObj)):
                         t = self.identical(a, b, f) if type(a) is type(b) else z3.BoolVal(False)
                         if isinstance(a, VList) and isinstance(b, VList) and a.ref == b.ref:
                             t = self.list_eq_cells(f.heap.lists[a.ref], f.old['heap'].lists[b.ref])
